@@ -100,7 +100,7 @@ def check_grid(ctx, geo, grid, blockmap, case, label):
         i = 1
     elif geo.atmosphere_type == 1:
         for c in geo.columnlist:
-            b = grid.blocklist[i]
+            b = grid.block[mp(geo.block_name(lays[0].name, c.name))]
             if not close(b.volume, geo.atmosphere_volume):
                 V('atmosphere-volume', 'atmosphere block %r volume %r, geometry says %r' % (b.name, b.volume, geo.atmosphere_volume))
                 break
@@ -111,7 +111,13 @@ def check_grid(ctx, geo, grid, blockmap, case, label):
             s = c.surface
             if not s > bottoms[k]:
                 continue
-            b = grid.blocklist[i]
+            # the block of this (layer, column) by NAME: the position in the list depends on the block order
+            # (the order itself was compared with the geometry's own list above)
+            nm = mp(geo.block_name(lays[k].name, c.name))
+            if nm not in grid.block:
+                V('block-missing', 'no block %r for layer %r, column %r below its surface' % (nm, lays[k].name, c.name))
+                return ncut
+            b = grid.block[nm]
             i += 1
             top = min(s, tops[k])
             if k == 1 and s > tops[1]:
@@ -298,6 +304,22 @@ def run_gen(ctx, spec):
             sh = [rng.uniform(-1e4, 1e4), rng.uniform(-1e4, 1e4), rng.uniform(-100, 100)]
             geo.translate(np.array(sh))
             desc['translate'] = sh
+        if rng.random() < 0.25:
+            # a derived geometry: some quadrilateral columns split into triangles (what the split leaves in the columns
+            # -- cached areas, centres -- is what the grid is built from)
+            quads = [c for c in geo.columnlist if c.num_nodes == 4]
+            done = []
+            for c in rng.sample(quads, min(len(quads), rng.randint(1, 3))):
+                if c.name in geo.column:
+                    node = rng.choice(c.node)
+                    with ctx.guard({'geo': desc, 'split': [c.name, node.name]}, where='split_column') as g:
+                        if geo.split_column(c.name, node.name):
+                            done.append([c.name, node.name])
+                    if g.raised is not None:
+                        break
+            if done:
+                desc['split_columns'] = done
+                ctx.count('geometries_with_split_columns')
         decorate(ctx, geo, desc)
         if rng.random() < 0.3:
             # the atmosphere type changed on the finished geometry through the property setter (last step: nothing
